@@ -54,6 +54,30 @@ def getattr_dispatch(prog: Program, cls: ClassInfo) -> Dict[str, List[str]]:
                 if prefix:
                     names = sorted(m for m in prog.all_methods(cls) if m.startswith(prefix))
                     out[self_attr(n.targets[0])] = names
+            # the same dispatch written as a table: self.X = {KEY: self.m1, ..}[key]  (the table possibly bound to a local first)
+            if isinstance(n, ast.Assign) and len(n.targets) == 1 and self_attr(n.targets[0]) \
+                    and (isinstance(n.value, ast.Subscript) or (isinstance(n.value, ast.Call) and isinstance(n.value.func, ast.Attribute)
+                                                                 and n.value.func.attr == "get" and n.value.args)):
+                table = n.value.value if isinstance(n.value, ast.Subscript) else n.value.func.value
+                if isinstance(table, ast.Name):
+                    defs = [a.value for a in ast.walk(init) if isinstance(a, ast.Assign) and len(a.targets) == 1
+                            and isinstance(a.targets[0], ast.Name) and a.targets[0].id == table.id]
+                    table = defs[0] if len(defs) == 1 else None
+                if isinstance(table, ast.Dict) and table.values and all(self_attr(v) for v in table.values):
+                    out[self_attr(n.targets[0])] = sorted(self_attr(v) for v in table.values)
+        # .. or as a ladder over the mode: if .. : self.X = self.m1  elif .. : self.X = self.m2
+        ladder: Dict[str, List[str]] = {}
+        for n in ast.walk(init):
+            if isinstance(n, ast.If) and n.orelse:
+                for a in ast.walk(n):
+                    if isinstance(a, ast.Assign) and len(a.targets) == 1 and self_attr(a.targets[0]) and self_attr(a.value) \
+                            and self_attr(a.value) in prog.all_methods(cls):
+                        ladder.setdefault(self_attr(a.targets[0]), [])
+                        if self_attr(a.value) not in ladder[self_attr(a.targets[0])]:
+                            ladder[self_attr(a.targets[0])].append(self_attr(a.value))
+        for k, v in ladder.items():
+            if k not in out and len(v) >= 2:
+                out[k] = sorted(v)
     return out
 
 
